@@ -5,7 +5,11 @@ use std::{
 
 use crate::io::reader::num::{read_u8, read_uint7_as};
 
-pub(super) fn decode(src: &mut &[u8], uncompressed_size: usize) -> io::Result<Vec<u8>> {
+pub(super) fn decode(
+    src: &mut &[u8],
+    uncompressed_size: usize,
+    stripe_depth: usize,
+) -> io::Result<Vec<u8>> {
     let chunk_count = read_chunk_count(src)?;
 
     let compressed_sizes = read_compressed_sizes(src, chunk_count)?;
@@ -16,7 +20,7 @@ pub(super) fn decode(src: &mut &[u8], uncompressed_size: usize) -> io::Result<Ve
         .zip(uncompressed_sizes)
         .map(|(compressed_size, uncompressed_size)| {
             let buf = split_off(src, compressed_size)?;
-            let chunk = super::decode(buf, uncompressed_size)?;
+            let chunk = super::decode_nested(buf, uncompressed_size, stripe_depth)?;
 
             if chunk.len() == uncompressed_size {
                 Ok(chunk)
